@@ -17,6 +17,10 @@ import (
 func init() { Registry["C08"] = runC08 }
 
 type c08CancelKey struct{}
+type c08OutKey struct{}
+
+// c08PassPub is a publisher decorator that does nothing (its type name is not the name of the handler's publisher).
+type c08PassPub struct{ message.Publisher }
 
 type c08Handler struct {
 	Name   string
@@ -151,6 +155,10 @@ func c08Run(r *tr.Run, hs []c08Handler, rng *rand.Rand) {
 				if want[i] != msgs[i] || snap[msgs[i]] != snapshot(msgs[i]) {
 					intact = false
 				}
+				// a fresh output still carries the context the handler gave it (underneath what the router added)
+				if v := msgs[i].Context().Value(c08OutKey{}); strings.Contains(msgs[i].UUID, ".o") && msgs[i] != shared && v != msgs[i].UUID {
+					intact = false
+				}
 			}
 			cm := consumed[m]
 			for _, o := range msgs {
@@ -176,6 +184,8 @@ func c08Run(r *tr.Run, hs []c08Handler, rng *rand.Rand) {
 			fresh := func(k int) *message.Message {
 				o := message.NewMessage(fmt.Sprintf("%s.o%d", msg.UUID, k), []byte("p"))
 				o.Metadata.Set("k", fmt.Sprint(k))
+				// every output travels with a context of its own, which the application gave it
+				o.SetContext(context.WithValue(context.Background(), c08OutKey{}, o.UUID))
 				return o
 			}
 			switch sh {
@@ -221,7 +231,9 @@ func c08Run(r *tr.Run, hs []c08Handler, rng *rand.Rand) {
 			outs, err = next(msg)
 			mu.Lock()
 			if shape[m] == "mw" && err == nil {
-				outs = append(outs, message.NewMessage(msg.UUID+".o1", []byte("mw")))
+				o := message.NewMessage(msg.UUID+".o1", []byte("mw"))
+				o.SetContext(context.WithValue(context.Background(), c08OutKey{}, o.UUID))
+				outs = append(outs, o)
 			}
 			returned[m] = outs
 			for _, o := range outs {
@@ -240,6 +252,11 @@ func c08Run(r *tr.Run, hs []c08Handler, rng *rand.Rand) {
 			return outs, err
 		}
 	})
+	if r.ID%2 == 0 {
+		// publisher decorators in front of every handler's publisher: the names in the context are still those of the publisher
+		// the handler was registered with
+		router.AddPublisherDecorators(func(p message.Publisher) (message.Publisher, error) { return c08PassPub{p}, nil })
+	}
 	for _, h := range hs {
 		var handle *message.Handler
 		if h.HasPub {
